@@ -1,4 +1,6 @@
 SPECIFICATION Spec
 INVARIANT Tiling
+INVARIANT ErrorInside
+INVARIANT NoInternal
 INVARIANT Dump
 CHECK_DEADLOCK FALSE
